@@ -5,7 +5,8 @@
 (*                                                                                                      *)
 (* A file holds thousands of executions (one per injected failure position) that all need the ghost of  *)
 (* the clean execution at its head, so a rejected execution must not hide the ones behind it: when NO   *)
-(* contract action can consume line l (~ENABLED TContract) the only enabled step is TRecover, which     *)
+(* contract action can consume line l (~Consumable: no guard of Faults.tla holds for the recorded event)*)
+(* the only enabled step is TRecover, which                                                             *)
 (* records <<l, job>> in `rej` and resumes at the next Reset line.  The file is accepted iff it was     *)
 (* consumed to the end AND rej is empty; every entry of rej is a rejection of that execution at that    *)
 (* line, reported one by one by checks/c15.py.                                                          *)
@@ -24,9 +25,9 @@ TStartClean == IsEv("Reset") /\ Ev.cls = "none" /\ StartClean(Ev.w) /\ job' = Ev
 TStartFault == IsEv("Reset") /\ Ev.cls # "none" /\ Len(Ev.k) > 0 /\ StartFault(Ev.w, Ev.cls) /\ job' = Ev.job
 
 TCall == /\ IsEv("Call")
-         /\ \/ Ev.ph = "C" /\ CleanCall(Ev.i, Ev.c, Ev.r, Ev.f, Ev.d)
-            \/ Ev.ph = "F" /\ FaultCall(Ev.i, Ev.c, Ev.r, Ev.f, Ev.d)
-            \/ Ev.ph = "R" /\ RetryCall(Ev.i, Ev.c, Ev.r, Ev.f, Ev.d)
+         /\ \/ Ev.ph = "C" /\ CleanCall(Ev.i, Ev.c, Ev.r, Ev.f, Ev.d, Ev.s)
+            \/ Ev.ph = "F" /\ FaultCall(Ev.i, Ev.c, Ev.r, Ev.f, Ev.d, Ev.s)
+            \/ Ev.ph = "R" /\ RetryCall(Ev.i, Ev.c, Ev.r, Ev.f, Ev.d, Ev.s)
          /\ UNCHANGED job
 
 TResetObjects == IsEv("ResetObjects") /\ ResetObjects(Ev.r) /\ UNCHANGED job
@@ -36,6 +37,20 @@ TLeak == IsEv("Leak") /\ LeakReport(Ev.heap, Ev.vm, Ev.fd) /\ UNCHANGED job
 (* last line of a complete file: nothing may be in progress (a truncated file has no End line) *)
 TEnd == IsEv("End") /\ Quiescent /\ UNCHANGED cvars /\ UNCHANGED job
 
+(* the disjunction of the guards of the contract actions for the event at line l (a state predicate) *)
+Consumable ==
+  /\ l <= Len(T)
+  /\ CASE Ev.e = "Reset" -> IF Ev.cls = "none" THEN StartCleanOk(Ev.w) ELSE Len(Ev.k) > 0 /\ StartFaultOk(Ev.w, Ev.cls)
+       [] Ev.e = "Call" -> CASE Ev.ph = "C" -> CleanCallOk(Ev.i, Ev.c, Ev.r, Ev.f, Ev.d, Ev.s)
+                             [] Ev.ph = "F" -> FaultCallOk(Ev.i, Ev.c, Ev.r, Ev.f, Ev.d, Ev.s)
+                             [] Ev.ph = "R" -> RetryCallOk(Ev.i, Ev.c, Ev.r, Ev.f, Ev.d, Ev.s)
+                             [] OTHER -> FALSE
+       [] Ev.e = "ResetObjects" -> ResetObjectsOk(Ev.r)
+       [] Ev.e = "Destroy" -> DestroyOk
+       [] Ev.e = "Leak" -> LeakReportOk(Ev.heap, Ev.vm, Ev.fd)
+       [] Ev.e = "End" -> Quiescent
+       [] OTHER -> FALSE                      \* ABORT and anything unknown
+
 TContract == (TStartClean \/ TStartFault \/ TCall \/ TResetObjects \/ TDestroy \/ TLeak \/ TEnd) /\ UNCHANGED rej
 
 NextStart(from) ==
@@ -44,7 +59,7 @@ NextStart(from) ==
 
 TRecover ==
   /\ l <= Len(T)
-  /\ ~ENABLED TContract
+  /\ ~Consumable
   /\ rej' = Append(rej, <<l, IF Ev.e = "Reset" THEN Ev.job ELSE job>>)
   /\ l' = NextStart(l)
   /\ phase' = "done" /\ pos' = 0 /\ heap' = <<0, 0, 0>>
